@@ -1,7 +1,7 @@
 (* C01 — polynomial layer of the completeness proof: root-factor lemma, divisibility by the vanishing polynomial
    of a set of distinct roots, the vanishing polynomial of the trace domain, segments of the composition
    polynomial.  stdlib style.  All statements are for every `FOps F` satisfying the field laws `FLaws`. *)
-From Coq Require Import List Arith Bool Lia Ring Field.
+From Coq Require Import List Arith Bool Lia Ring Field FinFun.
 From VBase Require Import FieldOps.
 From VModel Require Import Stark.
 Import ListNotations.
@@ -243,6 +243,58 @@ Proof.
     - intros r Hr. rewrite HD. unfold R. rewrite roots_poly_peval, (pprod_root _ _ Hr).
       apply In_domain in Hr. destruct Hr as (i & _ & ->).
       rewrite <- fpow_mul, Nat.mul_comm, fpow_mul, Hgn, fpow_one. ring. }
+  specialize (Hz x). rewrite HD in Hz. unfold R in Hz. rewrite roots_poly_peval in Hz.
+  symmetry. apply fsub_eq_zero. exact Hz.
+Qed.
+
+(* the same for a coset c * <h> of an m-th root of unity h (the zero set of an assertion divisor x^m - c^m,
+   c = g^first_step, h = g^stride):  prod_{i<m} (x - c h^i) = x^m - c^m *)
+Definition coset (c h : F) (m : nat) : list F := map (fun i => c *f fpow h i) (seq 0 m).
+
+Lemma fpow_mul_base a b : forall k, fpow (a *f b) k = fpow a k *f fpow b k.
+Proof. induction k as [|k IH]; simpl; [ring | rewrite IH; ring]. Qed.
+
+Lemma coset_NoDup c h m : primitive_root h m -> c <> zero -> NoDup (coset c h m).
+Proof.
+  intros Hh Hc. unfold coset.
+  assert (E : coset c h m = map (fun y => c *f y) (domain O h m)) by (unfold coset, domain; now rewrite map_map).
+  unfold coset in E. rewrite E. apply FinFun.Injective_map_NoDup; [|apply (domain_NoDup h m m Hh); lia].
+  intros a b Hab. assert (Hz : c *f (a -f b) = zero) by (replace (c *f (a -f b)) with (c *f a -f c *f b) by ring; rewrite Hab; ring).
+  apply fmul_integral in Hz. destruct Hz as [Hz|Hz]; [contradiction | now apply fsub_eq_zero].
+Qed.
+
+Theorem coset_vanishing c h m : primitive_root h m -> 0 < m -> c <> zero ->
+  forall x, pprod (coset c h m) x = fpow x m -f fpow c m.
+Proof.
+  intros Hh Hm Hc x. pose proof Hh as [Hhm _].
+  set (R := roots_poly (coset c h m)).
+  set (D := padd O (sub_const O (repeat zero m) (fpow c m)) (pscale O (fneg O one) (removelast R))).
+  assert (Hlc : length (coset c h m) = m) by (unfold coset; now rewrite map_length, seq_length).
+  assert (HlR : length R = S m) by (unfold R; now rewrite roots_poly_length, Hlc).
+  assert (Hpadd : forall a b y, peval (padd O a b) y = peval a y +f peval b y).
+  { induction a as [|a0 a IH]; intros [|b0 b] y; simpl; try ring. rewrite IH. ring. }
+  assert (Hpaddl : forall a b, length (padd O a b) = Nat.max (length a) (length b)).
+  { induction a as [|a0 a IH]; intros [|b0 b]; simpl; try reflexivity. now rewrite IH. }
+  assert (Hscale : forall k p y, peval (pscale O k p) y = k *f peval p y).
+  { intros k p y. induction p; simpl; [ring | rewrite IHp; ring]. }
+  assert (Hsc : forall y, peval (sub_const O (repeat zero m) (fpow c m)) y = zero -f fpow c m).
+  { intros y. destruct m; [lia|]. cbn [repeat Stark.sub_const Stark.peval]. rewrite peval_repeat_zero. ring. }
+  assert (HR : forall y, peval R y = peval (removelast R) y +f fpow y m).
+  { intros y. rewrite (peval_last_split R y) by (unfold R; apply roots_poly_nonempty).
+    replace (last R zero) with one by (unfold R; now rewrite roots_poly_monic). rewrite HlR.
+    replace (S m - 1) with m by lia. ring. }
+  assert (HD : forall y, peval D y = fpow y m -f fpow c m -f peval R y).
+  { intros y. unfold D. rewrite Hpadd, Hscale, Hsc, HR. ring. }
+  assert (HDl : length D <= m).
+  { unfold D. rewrite Hpaddl. unfold pscale. rewrite map_length, removelast_length, HlR.
+    destruct m; [lia|]. cbn [repeat Stark.sub_const length]. rewrite repeat_length. lia. }
+  assert (Hz : forall y, peval D y = zero).
+  { apply (too_many_roots D (coset c h m)).
+    - now apply coset_NoDup.
+    - now rewrite Hlc.
+    - intros r Hr. rewrite HD. unfold R. rewrite roots_poly_peval, (pprod_root _ _ Hr).
+      unfold coset in Hr. apply in_map_iff in Hr. destruct Hr as (i & <- & _).
+      rewrite fpow_mul_base. rewrite <- fpow_mul, Nat.mul_comm, fpow_mul, Hhm, fpow_one. ring. }
   specialize (Hz x). rewrite HD in Hz. unfold R in Hz. rewrite roots_poly_peval in Hz.
   symmetry. apply fsub_eq_zero. exact Hz.
 Qed.
